@@ -1579,7 +1579,58 @@ func runRows(prop string) func(p *Prog, r *Report) {
 							if a.E == nil {
 								return false, false
 							}
-							return liveLookup(fn, rw.live, atomKey(fn, a))
+							if v, known := liveLookup(fn, rw.live, atomKey(fn, a)); known {
+								return v, true
+							}
+							// the ok flag of a helper: can the helper still answer true under the fixed atoms
+							// (its parameters read as the arguments of this call)?
+							if h := okFlagHelper(fn, a); h != nil {
+								if call := okFlagCall(fn, a); call != nil {
+									hl := map[string]bool{}
+									k := 0
+									for _, f := range h.Type.Params.List {
+										for _, nm := range f.Names {
+											if k < len(call.Args) {
+												arg := exprStr(call.Args[k])
+												for lk, lv := range rw.live {
+													hl[replaceWord(lk, arg, nm.Name)] = lv
+												}
+											}
+											k++
+										}
+									}
+									canTrue := false
+									nTrue := 0
+									ast.Inspect(h.Body, func(z ast.Node) bool {
+										if _, isLit := z.(*ast.FuncLit); isLit {
+											return false
+										}
+										rs, ok := z.(*ast.ReturnStmt)
+										if !ok || len(rs.Results) < 2 {
+											return true
+										}
+										last := ast.Unparen(rs.Results[len(rs.Results)-1])
+										if id, ok := last.(*ast.Ident); ok && id.Name == "false" {
+											return true
+										}
+										nTrue++
+										t, _ := possible(h.GuardsAt(rs), func(ha *Atom) (bool, bool) {
+											if ha.E == nil {
+												return false, false
+											}
+											return liveLookup(h, hl, atomKey(h, ha))
+										})
+										if t {
+											canTrue = true
+										}
+										return true
+									})
+									if nTrue > 0 && !canTrue {
+										return false, true
+									}
+								}
+							}
+							return false, false
 						})
 						if !canT {
 							var ks []string
@@ -2147,6 +2198,36 @@ func guardsAtBranch(p *Prog, fn *Func, x ast.Stmt) *Formula {
 		inner := fn.expandHelperCalls(fn.expandBoolVars(decompose(ifs.Cond, pol, nil), 2), 2)
 		return fAnd(fn.GuardsAt(ifs.Cond), inner)
 	}
+	// a branch statement at the end of a block, behind guard clauses that leave the block:
+	// it is reached exactly when none of them fired
+	if blk, ok := p.Parent(x).(*ast.BlockStmt); ok {
+		var parts []*Formula
+		for _, st := range blk.List {
+			if st == ast.Stmt(x) {
+				break
+			}
+			is, ok := st.(*ast.IfStmt)
+			if !ok || is.Else != nil || len(is.Body.List) == 0 {
+				continue
+			}
+			switch last := is.Body.List[len(is.Body.List)-1].(type) {
+			case *ast.ReturnStmt:
+			case *ast.BranchStmt:
+				if last.Tok != token.CONTINUE && last.Tok != token.BREAK && last.Tok != token.GOTO {
+					continue
+				}
+			default:
+				continue
+			}
+			if len(parts) == 0 {
+				parts = append(parts, fn.GuardsAt(is.Cond))
+			}
+			parts = append(parts, fn.expandHelperCalls(fn.expandBoolVars(decompose(is.Cond, false, nil), 2), 2))
+		}
+		if len(parts) > 0 {
+			return fAnd(parts...)
+		}
+	}
 	return fn.GuardsAt(x)
 }
 
@@ -2447,4 +2528,23 @@ func okFlagHelper(fn *Func, a *Atom) *Func {
 		return nil
 	}
 	return res
+}
+
+// okFlagCall: the call whose last result the ok-flag atom holds.
+func okFlagCall(fn *Func, a *Atom) *ast.CallExpr {
+	id, ok := ast.Unparen(a.E).(*ast.Ident)
+	if !ok {
+		return nil
+	}
+	o := fn.Info().ObjectOf(id)
+	for f := fn; f != nil; f = f.Parent {
+		for _, asn := range f.Assignments(o) {
+			if s, ok := asn.(*ast.AssignStmt); ok && len(s.Rhs) == 1 {
+				if c, ok := ast.Unparen(s.Rhs[0]).(*ast.CallExpr); ok {
+					return c
+				}
+			}
+		}
+	}
+	return nil
 }
